@@ -196,7 +196,10 @@ func c15shWords(sh string, line string) string {
 
 // ---------------------------------------------------------------- C16: Split
 
-type c16 struct{ st *Stats }
+type c16 struct {
+	st    *Stats
+	maxIn int // longest input split earlier in this history (the pooled Scanner keeps its buffers)
+}
 
 func (r *c16) Exec(op []string) string {
 	switch op[0] {
@@ -229,6 +232,23 @@ func (r *c16) Exec(op []string) string {
 		if len(in) > 4096 {
 			r.st.Note("input>4096-bytes(bufio-refill)")
 		}
+		longest := 0
+		for _, f := range fs {
+			longest = max(longest, len(f))
+		}
+		lbNote(r.st, "split-token", longest)
+		lbNote(r.st, "split-fields", len(fs))
+		if len(in) <= 64 {
+			switch {
+			case r.maxIn > lbKiB64:
+				r.st.Note("short-split-after-input>65536")
+			case r.maxIn > 4096:
+				r.st.Note("short-split-after-input>4096")
+			case r.maxIn > 64:
+				r.st.Note("short-split-after-input>64")
+			}
+		}
+		r.maxIn = max(r.maxIn, len(in))
 		return fmt.Sprintf("fields=%s ok=%s", c15fields(fs), fmtBool(ok))
 	case "shsplit":
 		var ins [][]byte
@@ -289,6 +309,54 @@ func c16random(g *G, n int) []byte {
 	return out
 }
 
+// c16runBody: n bytes (plus delimiters) of ONE lexical state: 0 bare word, 1 single-quoted body, 2 double-quoted
+// body, 3 double-quoted body with escape pairs, 4 blanks, 5 backslash pairs, 6 unterminated single quote.
+func c16runBody(g *G, kind, n int) []byte {
+	b := make([]byte, 0, n+8)
+	switch kind {
+	case 0: // bare word
+		for len(b) < n {
+			b = append(b, "abcxyz019_./"[g.Intn(12)])
+		}
+	case 1: // single-quoted body (anything but a single quote is literal)
+		b = append(b, '\'')
+		for len(b) < n+1 {
+			b = append(b, "ab \t\\\"$\n"[g.Intn(8)])
+		}
+		b = append(b, '\'')
+	case 2: // double-quoted body without escapes
+		b = append(b, '"')
+		for len(b) < n+1 {
+			b = append(b, "ab \t'$\n"[g.Intn(7)])
+		}
+		b = append(b, '"')
+	case 3: // double-quoted body made of escape pairs and text
+		b = append(b, '"')
+		for len(b) < n+1 {
+			if g.Chance(1, 3) {
+				b = append(b, '\\', "\\\"a\n$"[g.Intn(5)])
+			} else {
+				b = append(b, 'a')
+			}
+		}
+		b = append(b, '"')
+	case 4: // blanks
+		for len(b) < n {
+			b = append(b, " \t\n"[g.Intn(3)])
+		}
+	case 5: // backslash pairs outside quotes
+		for len(b) < n {
+			b = append(b, '\\', "\\ a'\"\n"[g.Intn(6)])
+		}
+	case 6: // unterminated single quote (Split reports false, the text is kept)
+		b = append(b, '\'')
+		for len(b) < n {
+			b = append(b, "ab "[g.Intn(3)])
+		}
+	}
+	return b
+}
+
 // c16longRuns emits inputs in which ONE lexical state lasts longer than any buffer between the reader and the
 // scanner (the bufio.Reader's 4096 bytes, twice that, and a little around both): a bare word, a single- and a
 // double-quoted body, a double-quoted body full of escapes, a run of blanks, a run of backslash pairs, a comment.
@@ -298,51 +366,7 @@ func c16longRuns(g *G, f func(b []byte)) {
 	if g.Thorough() {
 		lens = append(lens, 4093, 4098, 8190, 8191, 8194, 9000, 12288, 12289, 16385)
 	}
-	body := func(kind, n int) []byte {
-		b := make([]byte, 0, n+8)
-		switch kind {
-		case 0: // bare word
-			for len(b) < n {
-				b = append(b, "abcxyz019_./"[g.Intn(12)])
-			}
-		case 1: // single-quoted body (anything but a single quote is literal)
-			b = append(b, '\'')
-			for len(b) < n+1 {
-				b = append(b, "ab \t\\\"$\n"[g.Intn(8)])
-			}
-			b = append(b, '\'')
-		case 2: // double-quoted body without escapes
-			b = append(b, '"')
-			for len(b) < n+1 {
-				b = append(b, "ab \t'$\n"[g.Intn(7)])
-			}
-			b = append(b, '"')
-		case 3: // double-quoted body made of escape pairs and text
-			b = append(b, '"')
-			for len(b) < n+1 {
-				if g.Chance(1, 3) {
-					b = append(b, '\\', "\\\"a\n$"[g.Intn(5)])
-				} else {
-					b = append(b, 'a')
-				}
-			}
-			b = append(b, '"')
-		case 4: // blanks
-			for len(b) < n {
-				b = append(b, " \t\n"[g.Intn(3)])
-			}
-		case 5: // backslash pairs outside quotes
-			for len(b) < n {
-				b = append(b, '\\', "\\ a'\"\n"[g.Intn(6)])
-			}
-		case 6: // unterminated single quote (Split reports false, the text is kept)
-			b = append(b, '\'')
-			for len(b) < n {
-				b = append(b, "ab "[g.Intn(3)])
-			}
-		}
-		return b
-	}
+	body := func(kind, n int) []byte { return c16runBody(g, kind, n) }
 	i := 0
 	for kind := 0; kind <= 6; kind++ {
 		for _, n := range lens {
@@ -418,9 +442,11 @@ func genC16(g *G) {
 			}
 			b[3990] = '"'
 		}
-		g.Case([]string{"reset", "split " + c15hex(b)})
+		// a short Split first: the long one then gets a pooled Scanner that has been used, also when the case is
+		// re-executed alone (shrinking, replay)
+		g.Case([]string{"reset", "split 612062", "split " + c15hex(b)})
 	}
-	c16longRuns(g, func(b []byte) { g.Case([]string{"reset", "split " + c15hex(b)}) })
+	c16longRuns(g, func(b []byte) { g.Case([]string{"reset", "split 2761", "split " + c15hex(b), "split 612062"}) })
 	// the two shells on eligible inputs
 	if c15haveShells() {
 		batches := g.Scale(25, 300)
@@ -443,6 +469,117 @@ func genC16(g *G) {
 				k++
 			}
 			g.Case([]string{"reset", line})
+		}
+	}
+	// LAST (the pooled Scanners are per process): long inputs followed by short ones in one history
+	c16large(g)
+}
+
+// c16words: n short words (some quoted, some empty, some with an escaped blank) separated by blanks.
+func c16words(g *G, n int) []byte {
+	var b []byte
+	for k := 0; k < n; k++ {
+		if k > 0 {
+			b = append(b, " \t\n"[g.Intn(3)])
+			if g.Chance(1, 8) {
+				b = append(b, ' ')
+			}
+		}
+		switch g.Intn(8) {
+		case 0:
+			b = append(b, "''"...)
+		case 1:
+			b = append(b, '\'', "ab "[g.Intn(3)], '\'')
+		case 2:
+			b = append(b, '"', "ab "[g.Intn(3)], '"', 'c')
+		case 3:
+			b = append(b, 'a', '\\', ' ', 'b')
+		default:
+			for j, m := 0, 1+g.Intn(3); j < m; j++ {
+				b = append(b, "abcxyz019_./"[g.Intn(12)])
+			}
+		}
+	}
+	return b
+}
+
+var c16small = []string{"612062", "2761206227", "276162", "61225c2262222063", ".", "5c", "61200a09", "2222", "615c0a62"}
+
+// c16large: size thresholds and carry-over for top-level Split.  A token (or a run of blanks, or an unterminated
+// quotation) of t-1, t, t+1 bytes for every threshold t, in every lexical state; tokens beyond 64 KiB; inputs of
+// 7..4097 tokens, growing and shrinking; each long input is followed by short ones in the SAME history because
+// Split takes its Scanner (token buffer, bufio.Reader, state, error) from a pool and puts it back.
+func c16large(g *G) {
+	off := int(c13genSeed() / 1000)
+	if off < 0 {
+		off = -off
+	}
+	sm := func(i int) string { return "split " + c16small[((i%len(c16small))+len(c16small))%len(c16small)] }
+	wrap := func(kind, n int) string {
+		pre := [][]byte{nil, []byte("x "), []byte("a'b' \"c\" ")}[g.Intn(3)]
+		b := append(append([]byte{}, pre...), c16runBody(g, kind, n)...)
+		if g.Chance(2, 3) {
+			b = append(b, " tail 'q' \"r\"\n"...)
+		}
+		return "split " + c15hex(b)
+	}
+	const kinds = 7
+	for ti, t := range lbThresholds {
+		ks := []int{(ti + off) % kinds, (ti + off + 3) % kinds}
+		if g.Thorough() {
+			ks = []int{0, 1, 2, 3, 4, 5, 6}
+		} else if t >= 4096 {
+			ks = ks[:1]
+		}
+		for _, k := range ks {
+			ops := []string{"reset", sm(ti)}
+			for j, n := range []int{t - 1, t, t + 1} {
+				ops = append(ops, wrap(k, n), sm(ti+2*j+1), sm(ti+2*j+2))
+			}
+			g.Each(ops)
+		}
+	}
+	type big struct{ n, kind int }
+	bigs := []big{{70000, 3}, {lbKiB64 + 1, 1}, {lbKiB64, 0}}
+	if g.Thorough() {
+		for _, n := range []int{lbKiB64 - 1, lbKiB64, lbKiB64 + 1, 70000, 2*lbKiB64 + 1} {
+			for k := 0; k < kinds; k++ {
+				bigs = append(bigs, big{n, k})
+			}
+		}
+	}
+	for i, bc := range bigs {
+		ops := []string{"reset", sm(i), wrap(bc.kind, bc.n)}
+		for k := 1; k <= 8; k++ {
+			ops = append(ops, sm(i+k))
+		}
+		g.Each(ops)
+	}
+	// many tokens
+	counts := lbAround(g.Scale(1025, 4097))
+	for lo := 0; lo < len(counts); lo += 6 {
+		grp := counts[lo:min(lo+6, len(counts))]
+		ops := []string{"reset"}
+		for _, n := range grp {
+			ops = append(ops, "split "+c15hex(c16words(g, n)), sm(n))
+		}
+		for k := len(grp) - 1; k >= 0; k-- {
+			ops = append(ops, "split "+c15hex(c16words(g, grp[k])), sm(k))
+		}
+		g.Each(ops)
+	}
+	g.Each([]string{"reset", sm(0), "split " + c15hex(c16words(g, 4097)), sm(1), sm(2), "split " + c15hex(c16words(g, 9)), sm(3)})
+	// the two shells on a long command line
+	if c15haveShells() {
+		for i := 0; i < g.Scale(1, 6); i++ {
+			var b []byte
+			for k := 0; k < 700; k++ {
+				b = append(b, []byte(fmt.Sprintf("w%d 'q %d' \"d %d\" e\\ %d ", k, k, k, k))...)
+			}
+			b = append(b, c16runBody(g, i%3, 4097+i)...)
+			if c16shEligible(b) {
+				g.Each([]string{"reset", "shsplit " + c15hex(b) + " 612062"})
+			}
 		}
 	}
 }
@@ -527,6 +664,19 @@ type c16scan struct {
 	st      *Stats
 	sawEnd  bool
 	didRest bool
+	maxTok  int // longest token this Scanner has delivered in this history (kept across Reset)
+	nTok    int // tokens delivered since the last Reset
+}
+
+func (r *c16scan) noteTok(n int) {
+	lbNote(r.st, "scanner-token", n)
+	r.maxTok = max(r.maxTok, n)
+	r.nTok++
+	for _, t := range lbThresholds {
+		if r.nTok == t {
+			r.st.Note("scanner-tokens" + lbClass(t))
+		}
+	}
 }
 
 func c16err(err error) string {
@@ -554,6 +704,10 @@ func (r *c16scan) Exec(op []string) string {
 	case "rst":
 		r.sc.Reset(c16NewReader(op[1], op[2], op[3], r.st))
 		r.st.Note("scanner-reset")
+		if c := lbClass(r.maxTok); c != "" && len(op[1]) <= 128 {
+			r.st.Note("scanner-reset-to-short-input-after-token" + c)
+		}
+		r.nTok = 0
 		r.sawEnd, r.didRest = false, false
 		return r.obs("-")
 	case "next":
@@ -569,10 +723,16 @@ func (r *c16scan) Exec(op []string) string {
 		} else if r.sc.Err() == io.EOF && !r.sc.Complete() {
 			r.st.Note("final-token-incomplete")
 		}
+		if ok {
+			r.noteTok(len(r.sc.Text()))
+		}
 		return r.obs("next=" + fmtBool(ok))
 	case "split":
 		toks := r.sc.Split()
 		r.sawEnd = true
+		for _, t := range toks {
+			r.noteTok(len(t))
+		}
 		return r.obs("toks=" + c15fields(toks))
 	case "each":
 		k := atoi(op[1])
@@ -585,6 +745,9 @@ func (r *c16scan) Exec(op []string) string {
 			r.st.Note("each-stopped-by-f")
 		} else {
 			r.sawEnd = true
+		}
+		for _, t := range got {
+			r.noteTok(len(t))
 		}
 		return r.obs("toks=" + c15fields(got))
 	case "rest":
@@ -782,11 +945,125 @@ func genC16Scanner(g *G) {
 		}
 		g.Case(ops)
 	}
+	c16scanLarge(g)
+}
+
+// c16scanLarge: size thresholds and carry-over for ONE Scanner used on several inputs through Reset: a token of
+// about t bytes for every threshold t (every lexical state, every kind of reader), then a short input, then a long
+// one again; tokens beyond 64 KiB; 7..4097 tokens taken with Next, Each (stopped around a threshold) and Split.
+// Rest in the middle of the input is asked for only while the consumed prefix is short (the specification's
+// account of it is quadratic in that prefix); at the very start and after the end it is asked for at every size.
+func c16scanLarge(g *G) {
+	off := int(c13genSeed() / 1000)
+	if off < 0 {
+		off = -off
+	}
+	const kinds = 7
+	input := func(kind, n int) []byte {
+		b := append([]byte("x "), c16runBody(g, kind, n)...)
+		return append(b, " tail 'q' \"r\"\n"...)
+	}
+	frag := func(i, t int) string {
+		switch i % 5 {
+		case 1:
+			if t <= 1025 {
+				return "b1"
+			}
+		case 2:
+			return fmt.Sprintf("c%d,%d,%d", max(t-1, 1), t, t+1)
+		case 3:
+			return "all/z"
+		case 4:
+			return fmt.Sprintf("c%d/e", 1+g.Intn(t))
+		}
+		return "all"
+	}
+	short := func(i int) string {
+		return fmt.Sprintf("rst %s %s all", c16small[i%len(c16small)], []string{"eof", "eof", "fail"}[i%3])
+	}
+	for ti, t := range lbThresholds {
+		ks := []int{(ti + off) % kinds}
+		if g.Thorough() {
+			ks = []int{0, 1, 2, 3, 4, 5, 6}
+		}
+		for _, k := range ks {
+			ops := []string{fmt.Sprintf("reset new %s eof %s", c15hex(input(k, t)), frag(ti+k, t))}
+			for i := 0; i < 7; i++ {
+				ops = append(ops, "next")
+			}
+			ops = append(ops, short(ti), "next", "next", "next")
+			ops = append(ops, fmt.Sprintf("rst %s %s %s", c15hex(input((k+1)%kinds, t+1)), g.Pick("eof", "fail"), frag(ti+k+1, t+1)))
+			if t <= 1024 {
+				ops = append(ops, "next", "next", "rest", "next")
+			} else {
+				ops = append(ops, "next", "rest", "next")
+			}
+			ops = append(ops, short(ti+1), "next", "rest", "next")
+			ops = append(ops, fmt.Sprintf("rst %s eof %s", c15hex(input((k+2)%kinds, t-1)), frag(ti+k+2, t-1)), g.Pick("split", "each 7"), "next", "rest",
+				short(ti+2), "split")
+			g.Each(ops)
+		}
+	}
+	type big struct {
+		n, kind int
+		frag    string
+	}
+	bigs := []big{{70000, 0, "all"}, {lbKiB64 + 1, 2, fmt.Sprintf("c%d,%d", lbKiB64-1, lbKiB64)}}
+	if g.Thorough() {
+		for _, n := range []int{lbKiB64 - 1, lbKiB64, lbKiB64 + 1, 70000} {
+			for k := 0; k < kinds; k++ {
+				bigs = append(bigs, big{n, k, []string{"all", "c4096,8192,65536", "all/z"}[k%3]})
+			}
+		}
+	}
+	for i, bc := range bigs {
+		in := c15hex(input(bc.kind, bc.n))
+		g.Each([]string{fmt.Sprintf("reset new %s eof %s", in, bc.frag), "next", "next", "next", short(i), "next", "next", "rest", "next",
+			fmt.Sprintf("rst %s eof %s", in, bc.frag), "next", "rest", short(i + 1), "split"})
+	}
+	// many tokens
+	counts := lbAround(g.Scale(1025, 4097))
+	if !g.Thorough() {
+		counts = append(counts, 4097)
+	}
+	for ci, n := range counts {
+		if !g.Thorough() && ci%3 != off%3 && n != 4097 {
+			continue
+		}
+		in := c15hex(c16words(g, n))
+		ops := []string{fmt.Sprintf("reset new %s eof %s", in, g.Pick("all", "all", "c4095,4096,4097", "all/z")), "next", "next"}
+		if n > 16 {
+			// stop Each just below, at, and just above a quarter of the tokens, go on with Next, take the rest at once
+			ops = append(ops, fmt.Sprintf("each %d", n/4-2), "next", fmt.Sprintf("each %d", 1), "next")
+		}
+		ops = append(ops, "split", "next", short(ci), "next", "next", fmt.Sprintf("rst %s fail all", in), fmt.Sprintf("each %d", n), "next", "rest")
+		g.Each(ops)
+	}
 }
 
 // ---------------------------------------------------------------- C15: Quote / Join
 
-type c15 struct{ st *Stats }
+type c15 struct {
+	st     *Stats
+	maxOut int // longest Quote/Join output of this history so far (the pooled buffer has grown to at least this)
+}
+
+// noteOut labels an output by the size threshold it reached, and a short call that follows a long one in the
+// same history (the pooled buffer carries the earlier call's capacity and, if not reset, its contents).
+func (r *c15) noteOut(what string, n int) {
+	lbNote(r.st, what+"-output", n)
+	if n <= 64 {
+		switch {
+		case r.maxOut > lbKiB64:
+			r.st.Note("short-" + what + "-after-output>65536")
+		case r.maxOut > 4096:
+			r.st.Note("short-" + what + "-after-output>4096")
+		case r.maxOut > 64:
+			r.st.Note("short-" + what + "-after-output>64")
+		}
+	}
+	r.maxOut = max(r.maxOut, n)
+}
 
 func c15strings(hs []string) []string {
 	out := make([]string, len(hs))
@@ -824,6 +1101,7 @@ func (r *c15) Exec(op []string) string {
 		if strings.IndexByte(s, 0) >= 0 {
 			r.st.Note("contains-NUL")
 		}
+		r.noteOut("quote", len(q))
 		fs, ok := shell.Split(q)
 		return fmt.Sprintf("q=%s fields=%s ok=%s", c15hex([]byte(q)), c15fields(fs), fmtBool(ok))
 	case "join":
@@ -841,6 +1119,8 @@ func (r *c15) Exec(op []string) string {
 			r.st.Note("join-three-or-more")
 		}
 		j := shell.Join(ss)
+		lbNote(r.st, "join-args", len(ss))
+		r.noteOut("join", len(j))
 		fs, ok := shell.Split(j)
 		return fmt.Sprintf("j=%s fields=%s ok=%s", c15hex([]byte(j)), c15fields(fs), fmtBool(ok))
 	case "shjoin":
@@ -857,6 +1137,12 @@ func (r *c15) Exec(op []string) string {
 	case "par":
 		ss := c15strings(op[1:])
 		r.st.Note("concurrent")
+		for _, s := range ss {
+			if len(s) > 4096 {
+				r.st.Note("concurrent-with-string>4096")
+				break
+			}
+		}
 		qs := make([]string, len(ss))
 		sp := make([]string, len(ss))
 		var wg sync.WaitGroup
@@ -1036,6 +1322,199 @@ func genC15(g *G) {
 				line += " " + c15hex(b)
 			}
 			g.Case([]string{"reset", line})
+		}
+	}
+	// LAST (the pools are per process: a call that spoils a pooled buffer must not make the ordinary cases
+	// above fail in the run and pass when re-executed alone): large outputs and short calls after them
+	c15large(g)
+}
+
+// c15big returns a string for which Quote's output is exactly n bytes (n >= 4; shape 4: about n), built from the
+// quoting rule, not by calling the code under test.
+//
+//	0  one quoted run: letters and blanks                      'ab c'          out = len+2
+//	1  only single quotes and letters: no quoted run at all    a\'b            out = len+#quotes
+//	2  plain letters and ONE blank (first, last, or inside)    'aaaa aaa'      out = len+2
+//	3  plain letters and ONE single quote                      aaaa\'aaa       out = len+1
+//	4  everything: quotes, metacharacters, NUL, high bytes (length n, output longer)
+func c15big(g *G, shape, n int) []byte {
+	letters := func(b []byte) {
+		for i := range b {
+			b[i] = "abcxyz019_./"[g.Intn(12)]
+		}
+	}
+	pos := func(l int) int {
+		switch g.Intn(4) {
+		case 0:
+			return 0
+		case 1:
+			return l - 1
+		}
+		return g.Intn(l)
+	}
+	switch shape {
+	case 0:
+		b := make([]byte, n-2)
+		for i := range b {
+			b[i] = "abcxyz019_./ \t"[g.Intn(14)]
+		}
+		b[g.Intn(len(b))] = ' '
+		return b
+	case 1:
+		k := 1 + g.Intn(n/2)
+		b := make([]byte, n-k)
+		letters(b)
+		for _, i := range g.R.Perm(len(b))[:k] {
+			b[i] = '\''
+		}
+		return b
+	case 2:
+		b := make([]byte, n-2)
+		letters(b)
+		b[pos(len(b))] = " \t\n$"[g.Intn(4)]
+		return b
+	case 3:
+		b := make([]byte, n-1)
+		letters(b)
+		b[pos(len(b))] = '\''
+		return b
+	}
+	b := make([]byte, n)
+	for i := range b {
+		switch k := g.Intn(10); {
+		case k < 5:
+			b[i] = "abcxyz019_./"[g.Intn(12)]
+		case k < 9:
+			b[i] = c15alpha[g.Intn(len(c15alpha))]
+		default:
+			b[i] = byte(g.Intn(256))
+		}
+	}
+	return b
+}
+
+const c15shapes = 5
+
+// c15large: the size-threshold and carry-over families of stream C15.  Every history mixes calls whose output
+// crosses a threshold with short calls before and after them, Quote and Join alternating, because the pooled
+// bytes.Buffer is shared by both and keeps what the previous call left in it.
+func c15large(g *G) {
+	small := []string{"quote 612062", "join 782079 27", "quote 697427732061", "join .", "quote 27", "join 61 . 6220", "quote .", "join"}
+	sm := func(i int) string { return small[i%len(small)] }
+	hx := func(b []byte) string { return c15hex(b) }
+	off := int(c13genSeed() / 1000) // a different shape per threshold for every VERIF_SEED
+	if off < 0 {
+		off = -off
+	}
+	// (1) per threshold t: outputs of t-1, t, t+1 bytes (Quote alone, as the first and as the last argument of
+	// Join), a short call after each
+	for ti, t := range lbThresholds {
+		shapes := []int{(ti + off) % c15shapes, (ti + off + 2) % c15shapes}
+		if g.Thorough() {
+			shapes = []int{0, 1, 2, 3, 4}
+		} else if t >= 4096 {
+			shapes = shapes[:1]
+		}
+		for _, sh := range shapes {
+			ops := []string{"reset", sm(ti)}
+			if t >= 4096 && !g.Thorough() {
+				ops = append(ops, "quote "+hx(c15big(g, sh, t+1)), sm(ti+1), sm(ti+2),
+					"join "+hx(c15big(g, sh, t-2))+" 61", sm(ti+3), sm(ti+4))
+				g.Each(ops)
+				continue
+			}
+			for k, n := range []int{t - 1, t, t + 1} {
+				ops = append(ops, "quote "+hx(c15big(g, sh, n)), sm(ti+2*k+1), sm(ti+2*k+2))
+			}
+			// as Join arguments: the output is the quoted big string, a blank and one letter (t+1 and t bytes)
+			ops = append(ops, "join "+hx(c15big(g, sh, t-1))+" 61", sm(ti+7), "join 61 "+hx(c15big(g, sh, t-2)), sm(ti+8), sm(ti+9))
+			g.Each(ops)
+		}
+	}
+	// (2) beyond 4 KiB and 64 KiB: one long output, then short calls of every kind in the same history
+	type bigCase struct {
+		n, shape int
+		join     bool
+	}
+	bigs := []bigCase{{5000, 0, false}, {70000, 2, false}, {5000, 1, true}, {lbKiB64 + 1, 0, true}}
+	if g.Thorough() {
+		for _, n := range []int{5000, 8191, 8192, 8193, lbKiB64 - 1, lbKiB64, lbKiB64 + 1, 70000, 2*lbKiB64 + 1} {
+			for sh := 0; sh < 4; sh++ {
+				bigs = append(bigs, bigCase{n, sh, false}, bigCase{n, sh, true})
+			}
+		}
+	}
+	for i, bc := range bigs {
+		ops := []string{"reset", sm(i)}
+		if bc.join {
+			// the long output is assembled from three arguments
+			a := bc.n / 3
+			ops = append(ops, "join "+hx(c15big(g, bc.shape, a))+" "+hx(c15big(g, (bc.shape+1)%4, a))+" "+hx(c15big(g, bc.shape, bc.n-2*a-2)))
+		} else {
+			ops = append(ops, "quote "+hx(c15big(g, bc.shape, bc.n)))
+		}
+		for k := 1; k <= 8; k++ {
+			ops = append(ops, sm(i+k))
+		}
+		g.Each(ops)
+	}
+	// (3) Join of MANY arguments: the number of arguments around every threshold (short words, some of them
+	// empty or in need of quoting), ascending and descending in one history, short joins in between
+	word := func() string { return hx(c15randString(g, 3, true)) }
+	joinN := func(n int) string {
+		var sb strings.Builder
+		sb.WriteString("join")
+		for k := 0; k < n; k++ {
+			sb.WriteByte(' ')
+			sb.WriteString(word())
+		}
+		return sb.String()
+	}
+	counts := lbAround(g.Scale(1025, 4097))
+	for lo := 0; lo < len(counts); lo += 6 {
+		grp := counts[lo:min(lo+6, len(counts))]
+		ops := []string{"reset"}
+		for _, n := range grp {
+			ops = append(ops, joinN(n), sm(n))
+		}
+		for k := len(grp) - 1; k >= 0; k-- {
+			ops = append(ops, joinN(grp[k]), sm(k))
+		}
+		g.Each(ops)
+	}
+	// a command line of 600 flags, and one of 4097 words; then short calls
+	flags := "join"
+	for k := 0; k < 600; k++ {
+		flags += " " + hx([]byte(fmt.Sprintf("--opt%d=%s", k, []string{"v", "a b", "it's", "", "$HOME/x y", "*"}[g.Intn(6)])))
+	}
+	g.Each([]string{"reset", sm(1), flags, sm(0), sm(1), sm(2), flags, sm(3)})
+	g.Each([]string{"reset", sm(2), joinN(4097), sm(0), sm(1), joinN(9), sm(2)})
+	// (4) concurrent callers, some of them with long strings: the pool hands buffers of very different
+	// capacity to whoever asks next
+	for i := 0; i < g.Scale(2, 12); i++ {
+		line := "par"
+		for k := 0; k < 8; k++ {
+			switch k {
+			case 1:
+				line += " " + hx(c15big(g, i%4, 5000+g.Intn(200)))
+			case 4:
+				line += " " + hx(c15big(g, (i+1)%4, 4090+g.Intn(10)))
+			case 6:
+				line += " " + hx(c15big(g, (i+2)%4, 600))
+			default:
+				line += " " + hx(c15randString(g, 10, true))
+			}
+		}
+		g.Each([]string{"reset", line})
+	}
+	// (5) the two shells on a long word among short ones (no NUL; nothing bash expands inside the words)
+	if c15haveShells() {
+		for i := 0; i < g.Scale(1, 6); i++ {
+			line := "shjoin " + hx(c15big(g, i%4, 5000+i)) + " 612062 " + hx(c15big(g, (i+1)%4, 4097)) + " 27 61"
+			for k := 0; k < 300; k++ {
+				line += " " + hx([]byte(fmt.Sprintf("-f%d", k)))
+			}
+			g.Each([]string{"reset", line})
 		}
 	}
 }
